@@ -149,6 +149,12 @@ def cases(tier, seed):
     return out
 
 
+def sys_combine():
+    import sys
+    import amr_kitchen  # noqa
+    return sys.modules["amr_kitchen.combine.combine"].combine
+
+
 def do_combine(pa, pb, out, v1, v2):
     from amr_kitchen import PlotfileCooker
     from amr_kitchen.combine import combine as cmb
@@ -267,6 +273,29 @@ def run_case(case, workdir):
                     rec.fail("wrote_into_input", sub, "%s %s" % (e, p))
             shutil.rmtree(out, ignore_errors=True)
     if case["forms"]:
+        # history: ONE PlotfileCooker object is the first input of three combines
+        from amr_kitchen import PlotfileCooker
+        fn = sys_combine()
+        with vpool.controlled():
+            def hist():
+                p1, p2 = PlotfileCooker(pa), PlotfileCooker(pb)
+                outs = []
+                for k2 in range(3):
+                    o = os.path.join(workdir, "out_h%d" % k2)
+                    fn(p1, p2, pltout=o, vars2=[["Z"], ["Zvar"], None][k2])
+                    outs.append(o)
+                return outs
+            st, val = call(hist)
+        rec.exe([dh, "history"], nontrivial=True, trans=3)
+        if st == "exc":
+            rec.fail("history_raised", {"history": "three combines with one reader object as first input"}, exc_text(val))
+        else:
+            for k2, o in enumerate(val):
+                pp = oracle.parse_output(rec, {"history_step": k2}, o)
+                if pp is not None:
+                    oracle.compare_contents(rec, {"history": "three combines with one reader object as first input", "step": k2}, pp,
+                                            ra.combine(rb, None, [["Z"], ["Zvar"], None][k2]), prefix="history_")
+                    oracle.taste_accepts(rec, {"history_step": k2}, o)
         import amr_kitchen.combine.cli as ccli
         from ..common import run_cli
         for v1, v2, sel in ((None, None, (None, None)), ("density temp", "Zvar,Z", (["density", "temp"], ["Zvar", "Z"])),
